@@ -37,7 +37,7 @@ fn material(s: &Scenario) -> Option<Material> {
                 pair: StatePair { files: laid.iter().map(|l| (l.path.clone(), None, Some(l.text.clone()), None)).collect() },
                 mode: if c.mode % 3 == 2 { Some(DiffMode { unified: 3, kind: 1, algo: 0, renames: false }) } else { None },
                 // mode 1 is the interactive scan of the whole tree (no path arguments)
-                scan_paths: if c.mode % 3 == 1 { vec![] } else { laid.iter().map(|l| l.path.clone()).collect() },
+                scan_paths: if c.mode % 3 == 1 { vec![] } else { laid.iter().map(|l| l.path.replace('\\', "\\\\")).collect() },
                 has_scripts,
             })
         }
